@@ -186,6 +186,7 @@ fn main() {
         if cases < scale(if thorough { 600 } else { 120 }) && w.bytes.len() < 3000 && w.frames.iter().map(|f| f.samples.len()).sum::<usize>() <= MODEL_MAX_SAMPLES {
             cases += 1;
             out.case(dec_subset_case(&w.bytes, &[("src", esc("stream_writer"))]));
+            out.case(enc_subset_case(&w.bytes, &w.frames, cfg.json()));
         }
 
         // ---- segmentations of the clean stream
